@@ -38,7 +38,8 @@ class SysState:
 
 
 class Protocol:
-    def __init__(self, bm: BrokerModel, T, lmax=6, gmax=2, spurious=False):
+    def __init__(self, bm: BrokerModel, T, lmax=6, gmax=2, spurious=False, share="guarded"):
+        self.share = share  # how the worker loop decides to call split_and_push (derived from its MIR by workerloop.share_form)
         self.bm, self.T, self.lmax, self.gmax, self.spurious = bm, T, lmax, gmax, spurious
         bm.tmax = max(bm.tmax, T)
         bm.lmax = lmax
@@ -161,7 +162,7 @@ class Protocol:
                                    + self.frame(s, t, w, keep_market=True) + [t.notif[v] == s.notif[v] for v in range(self.T) if v != w])))
             # after the block: stop / need pop / keep going without sharing
             stop = z3.Bool(f"finish!{tag}.{w}")
-            share_cond = z3.And(s.L[w] > 1, s.mk.tc > 1)
+            share_cond = z3.And(s.L[w] > 1, s.mk.tc > 1) if self.share == "guarded" else z3.BoolVal(True)
             moves.append(z3.And(*(base + [s.pc[w] == AFTER_WORK, z3.Or(stop, z3.Not(share_cond)),
                                           t.pc[w] == z3.If(stop, DROPPING, z3.If(s.L[w] == 0, NEED_POP, HAVE_WORK)),
                                           t.L[w] == z3.If(stop, 0, s.L[w]), t.notif[w] == s.notif[w],
